@@ -45,7 +45,7 @@ def native(req, src_root, script='native_c01.py'):
 def replay(name, e, src_root):
     m = NAME.match(name)
     if not m:
-        if name.startswith('C01.obf') or name.startswith('C01.conn') or name.startswith('C01.undecided['):
+        if name.startswith('C01.obf') or name.startswith('C01.conn') or name.startswith('C01.undecided[') or 'native-sweep' in name:
             from replay import C01_obf
             return C01_obf.replay(name, e, src_root)
         return None, write_replay(name, e, note='obligation about a codec building block (element/array contract): '
